@@ -320,7 +320,8 @@ pub fn observe_state(w: &World, lines: &mut Vec<String>) {
 }
 
 pub enum Built2 {
-    Event(Event, bool),
+    /// event, and whether it is a `cancel_orders` (1) / `close_positions` (2) command (0 otherwise)
+    Event(Event, u8),
     /// the op names an instrument the engine does not know (the code would panic)
     Panic,
     /// `flat` on an instrument without a position: nothing to send
@@ -333,16 +334,19 @@ pub fn build_event(w: &mut World, toks: &[String]) -> Built2 {
     let time = time_ms(w.tick);
     let n = w.ins_idx.len();
     let ins_in_range = |t: &str| t.parse::<usize>().map(|i| i < n).unwrap_or(false);
-    let mut is_cancel_orders = false;
+    let mut is_cancel_orders = 0u8;
     let event: Event = match toks[0].as_str() {
         "shutdown" => EngineEvent::Shutdown(barter::shutdown::Shutdown),
         "cmd_open" => EngineEvent::Command(Command::SendOpenRequests(OneOrMany::from_iter(parse_reqs(w, &toks[1..]).1))),
         "cmd_cancel" => EngineEvent::Command(Command::SendCancelRequests(OneOrMany::from_iter(parse_reqs(w, &toks[1..]).0))),
         "cancel_orders" => {
-            is_cancel_orders = true;
+            is_cancel_orders = 1;
             EngineEvent::Command(Command::CancelOrders(parse_filter(w, &toks[1])))
         }
-        "close_positions" => EngineEvent::Command(Command::ClosePositions(parse_filter(w, &toks[1]))),
+        "close_positions" => {
+            is_cancel_orders = 2;
+            EngineEvent::Command(Command::ClosePositions(parse_filter(w, &toks[1])))
+        }
         "trading" => EngineEvent::TradingStateUpdate(if toks[1] == "on" { TradingState::Enabled } else { TradingState::Disabled }),
         "snap" | "resp" | "fill" | "flat" | "price" => {
             if !ins_in_range(&toks[1]) {
@@ -439,7 +443,7 @@ pub fn build_event(w: &mut World, toks: &[String]) -> Built2 {
 
 /// `ev ...`: build the engine event, process it, print the tick's observations.
 pub fn run_event(w: &mut World, toks: &[String], algo: Option<(Vec<OrderRequestCancel>, Vec<OrderRequestOpen>)>, lines: &mut Vec<String>) {
-    let (event, is_cancel_orders) = match build_event(w, toks) {
+    let (event, cmd_kind) = match build_event(w, toks) {
         Built2::Event(e, c) => (e, c),
         Built2::Panic => {
             lines.push("panic".into());
@@ -450,6 +454,8 @@ pub fn run_event(w: &mut World, toks: &[String], algo: Option<(Vec<OrderRequestC
             return;
         }
     };
+    let is_cancel_orders = cmd_kind == 1;
+    let is_close_positions = cmd_kind == 2;
 
     if let Some(a) = algo {
         w.built.engine.strategy.script.borrow_mut().push_back(a);
@@ -480,26 +486,37 @@ pub fn run_event(w: &mut World, toks: &[String], algo: Option<(Vec<OrderRequestC
         let line = match got {
             None => format!("rx{label} -"),
             Some(got) => {
-                let k = match (is_cancel_orders, commanded) {
-                    (true, Some(ActionOutput::CancelOrders(c))) => c
+                // number of leading deliveries on this link that belong to the command itself
+                let k = match (cmd_kind, commanded) {
+                    (1, Some(ActionOutput::CancelOrders(c))) => c
+                        .sent
+                        .iter()
+                        .filter(|r| w.ex_label(r.key.exchange.0) == label)
+                        .count(),
+                    (2, Some(ActionOutput::ClosePositions(c))) => c
+                        .opens
                         .sent
                         .iter()
                         .filter(|r| w.ex_label(r.key.exchange.0) == label)
                         .count(),
                     _ => 0,
                 };
-                let mut head: Vec<OrderRequestCancel<ExchangeIndex, InstrumentIndex>> = vec![];
+                let mut head_c: Vec<OrderRequestCancel<ExchangeIndex, InstrumentIndex>> = vec![];
+                let mut head_o: Vec<OrderRequestOpen<ExchangeIndex, InstrumentIndex>> = vec![];
                 let mut rest: Vec<String> = vec![];
                 for (n, r) in got.into_iter().enumerate() {
                     match r {
-                        ExecutionRequest::Cancel(c) if n < k => head.push(c),
+                        ExecutionRequest::Cancel(c) if n < k => head_c.push(c),
+                        ExecutionRequest::Open(o) if n < k => head_o.push(o),
                         ExecutionRequest::Cancel(c) => rest.push(fmt_cancel(w, &c)),
                         ExecutionRequest::Open(o) => rest.push(fmt_open_req(w, &o)),
                         ExecutionRequest::Shutdown => rest.push("shutdown".into()),
                     }
                 }
-                head.sort_by_key(|r| (w.ins_label(r.key.instrument.0), cid_num(&r.key.cid.0)));
-                let mut all: Vec<String> = head.iter().map(|c| fmt_cancel(w, c)).collect();
+                head_c.sort_by_key(|r| (w.ins_label(r.key.instrument.0), cid_num(&r.key.cid.0)));
+                head_o.sort_by_key(|r| w.ins_label(r.key.instrument.0));
+                let mut all: Vec<String> = head_c.iter().map(|c| fmt_cancel(w, c)).collect();
+                all.extend(head_o.iter().map(|o| fmt_open_req(w, o)));
                 all.extend(rest);
                 format!("rx{label} {}", all.join(" "))
             }
@@ -521,8 +538,9 @@ pub fn run_event(w: &mut World, toks: &[String], algo: Option<(Vec<OrderRequestC
             send_out_lines("cmd_o", o, &fo, false, w, lines);
         }
         Some(ActionOutput::ClosePositions(co)) => {
+            // the strategy iterates instruments in index order: print in label order
             send_out_lines("cmd_c", &co.cancels, &fc, false, w, lines);
-            send_out_lines("cmd_o", &co.opens, &fo, false, w, lines);
+            send_out_lines("cmd_o", &co.opens, &fo, is_close_positions, w, lines);
         }
         Some(ActionOutput::GenerateAlgoOrders(_)) => lines.push("cmd algo?".into()),
     }
